@@ -268,6 +268,49 @@ theorem getIn_updateIn (f : Val → Except Err Val) (d d' : Val) (p : Path)
         exact ⟨old, new, h1, by simp [getIn, h2]⟩
     | _ => simp [updateIn] at h
 
+/-- **`update_in` applies `f` to what `get_in` reads** (the statement `getIn_updateIn` leaves open:
+there `old` is any value): whenever `update_in` succeeds, the argument handed to `f` is the entry
+`get_in` reads at `p` in the dictionary given — also when that entry is falsy (`0`, `None`, `''`,
+`[]`) — or `{}` when there is no such entry; and `get_in` then reads `f`'s result at `p`. -/
+theorem updateIn_applies_f_to_getIn (f : Val → Except Err Val) (d d' : Val) (p : Path)
+    (h : updateIn f d p = .ok d') :
+    ∃ old new, (getIn d p = .ok (some old) ∨ (getIn d p = .ok Option.none ∧ old = .dict [])) ∧
+      f old = .ok new ∧ getIn d' p = .ok (some new) := by
+  induction p generalizing d d' with
+  | nil => exact ⟨d, d', Or.inl (by simp [getIn]), by simpa [updateIn] using h, by simp [getIn]⟩
+  | cons k rest ih =>
+    cases d with
+    | dict kvs =>
+      simp only [updateIn] at h
+      cases hr : updateIn f ((KV.lookup k kvs).getD (.dict [])) rest with
+      | error e => simp [hr] at h
+      | ok c =>
+        simp only [hr] at h
+        injection h with h; subst h
+        obtain ⟨old, new, hor, h1, h2⟩ := ih _ _ hr
+        refine ⟨old, new, ?_, h1, by simp [getIn, h2]⟩
+        cases hl : KV.lookup k kvs with
+        | some child =>
+          simp only [hl, Option.getD_some] at hor
+          simpa [getIn, hl] using hor
+        | none =>
+          simp only [hl, Option.getD_none] at hor
+          right
+          refine ⟨by simp [getIn, hl], ?_⟩
+          cases rest with
+          | nil =>
+            rcases hor with h | h
+            · simp [getIn] at h; exact h.symm
+            · exact h.2
+          | cons k2 r2 =>
+            rcases hor with h | h
+            · simp [getIn, KV.lookup] at h
+            · exact h.2
+    | _ => simp [updateIn] at h
+
+example : updateIn (fun v => .ok (.list [v])) (.dict [("k", .int 0), ("n", .none)]) ["k"] =
+    .ok (.dict [("k", .list [.int 0]), ("n", .none)]) := by rfl
+
 /-- **`get_in` reads what `assoc_path` wrote** (non-empty path; when the prefix runs into a
 non-dictionary `assoc_path` raises, so there is no `d'`). -/
 theorem getIn_assocPath (d d' : Val) (p : Path) (v : Val) (hp : p ≠ [])
